@@ -74,3 +74,19 @@ func VerifRunning(s Screen) bool {
 	}
 	return false
 }
+
+// VerifEncodings lists the names in the character-set registry, sorted.
+func VerifEncodings() []string {
+	encodingLk.Lock()
+	defer encodingLk.Unlock()
+	var out []string
+	for n := range encodings {
+		out = append(out, n)
+	}
+	for i := 1; i < len(out); i++ {
+		for j := i; j > 0 && out[j] < out[j-1]; j-- {
+			out[j], out[j-1] = out[j-1], out[j]
+		}
+	}
+	return out
+}
